@@ -586,6 +586,40 @@ def from_records(text):
     if len({a for a, _ in arms}) != len(arms): refuse(W, "a record type has two arms")
     return arms
 
+# ------------------------------------------------------------------ simple-mdns: the records an instance is advertised with
+def into_records(inst_text, conv_text):
+    W = 'simple-mdns/src/instance_information.rs: into_records; conversion_utils.rs'
+    b = fn_body(inst_text, 'into_records', W)
+    m = re.match(r'let mut records=Vec::new\(\);(?P<steps>.*)Ok\(records\)$', b)
+    if not m: refuse(W, f"into_records: {b[:200]}")
+    shapes = [(r'for (\w+) in self\.ip_addresses\{records\.push\(ip_addr_to_resource_record\(service_name,\1,ttl\)\);\}', 'addresses'),
+              (r'for (\w+) in self\.ports\{records\.push\(port_to_srv_record\(service_name,\1,ttl\)\);\}', 'ports'),
+              (r'records\.push\(hashmap_to_txt\(service_name,self\.attributes,ttl\)\?\);', 'attributes')]
+    rest, order = m.group('steps'), []
+    while rest:
+        for rx, v in shapes:
+            a = re.match(rx, rest)
+            if a:
+                order.append(v); rest = rest[a.end():]; break
+        else:
+            refuse(W, f"into_records: step not recognised: {rest[:120]}")
+    if sorted(order) != ['addresses', 'attributes', 'ports']: refuse(W, f"into_records: steps {order}")
+    new = lambda rd: r'ResourceRecord::new\(name\.clone\(\),CLASS::(\w+),rr_ttl,' + rd + r',?\)'
+    b = block_after(conv_text, r"\bfn ip_addr_to_resource_record<'a>\(", W)
+    m = re.match(r'match addr\{IpAddr::V4\(ip\)=>\{' + new(r'RData::(\w+)\(\2::from\(ip\)\)') + r'\}IpAddr::V6\(ip\)=>\{' + new(r'RData::(\w+)\(\4::from\(ip\)\)') + r'\}\}$', b)
+    if not m: refuse(W, f"ip_addr_to_resource_record: {b[:200]}")
+    v4, v6 = (m.group(2), m.group(1)), (m.group(4), m.group(3))
+    b = block_after(conv_text, r"\bfn port_to_srv_record<'a>\(", W)
+    m = re.match(new(r'RData::SRV\(SRV\{((?:\w+(?::[^,{}]+)?,?)+)\}\)') + '$', b)
+    if not m: refuse(W, f"port_to_srv_record: {b[:200]}")
+    f = dict((x.split(':', 1) + [x])[:2] for x in m.group(2).strip(',').split(','))
+    if set(f) != {'port', 'priority', 'target', 'weight'} or f['port'] != 'port' or f['target'] != 'name.clone()': refuse(W, f"port_to_srv_record: fields {f}")
+    srv = (m.group(1), str(num(f['priority'])), str(num(f['weight'])))
+    b = block_after(conv_text, r"\bfn hashmap_to_txt<'a>\(", W)
+    m = re.match(r'let txt=TXT::try_from\(attributes\)\?;Ok\(' + new(r'RData::TXT\(txt\)') + r'\)$', b)
+    if not m: refuse(W, f"hashmap_to_txt: {b[:200]}")
+    return {'order': order, 'v4': list(v4), 'v6': list(v6), 'srv': list(srv), 'txtClass': m.group(1)}
+
 # ------------------------------------------------------------------ name.rs: the relations between names
 def name_relations(text):
     W = 'name.rs: is_link_local / is_subdomain_of / without'
@@ -733,6 +767,11 @@ def generate(repo):
     ing = [attempt('mdns.ingest:sync', need('dsk', lambda t: ingest(t, 'sync_discovery/service_discovery.rs', False))),
            attempt('mdns.ingest:tokio', need('dak', lambda t: ingest(t, 'async_discovery/service_discovery.rs', True)))]
     fr = attempt('mdns.from_records', lambda: need('inst', from_records)())
+    files['conv'] = read_keep('simple-mdns/src/conversion_utils.rs')
+    def _ir():
+        if files['inst'] is None or files['conv'] is None: refuse('into_records', 'file not found')
+        return into_records(files['inst'], files['conv'])
+    ir = attempt('mdns.into_records', _ir)
     files['modrs'] = read('simple-dns/src/dns/mod.rs')
     qo = attempt('codes.question_codes_out', need('modrs', qcodes_out))
     mw = attempt('packet.message_writer', need('p', message_writer))
@@ -853,6 +892,12 @@ def generate(repo):
           "def ingestFilter : List (Option (List String)) := [" + ', '.join('none' if v is None else 'some ' + strs(v['filter']) for v in ing) + "]",
           "/-- `InstanceInformation::from_records`: what each kind of record contributes -/",
           "def fromRecordsArms : Option (List (String × String)) := " + ('none' if fr is None else 'some [' + ', '.join(f'({q(a)}, {q(b)})' for a, b in fr) + ']'),
+          "/-- `InstanceInformation::into_records` and the constructors of `conversion_utils.rs`: the order of the record groups; (type, class) for an IPv4 / IPv6 address; (class, priority, weight) of the SRV record (target = the owner name); the class of the TXT record -/",
+          "def intoRecordsOrder : Option (List String) := " + ('none' if ir is None else 'some ' + strs(ir['order'])),
+          "def intoRecordsV4 : Option (List String) := " + ('none' if ir is None else 'some ' + strs(ir['v4'])),
+          "def intoRecordsV6 : Option (List String) := " + ('none' if ir is None else 'some ' + strs(ir['v6'])),
+          "def intoRecordsSrv : Option (String × Nat × Nat) := " + ('none' if ir is None else f"some ({q(ir['srv'][0])}, {ir['srv'][1]}, {ir['srv'][2]})"),
+          "def intoRecordsTxtClass : Option String := " + ('none' if ir is None else 'some ' + q(ir['txtClass'])),
           "/-- `From<QTYPE> for u16` and `From<QCLASS> for u16` (the codes the writers emit): (variant, code; `none` for the arm that converts the wrapped TYPE / CLASS) -/",
           "def qtypeToCode : Option (List (String × Option Nat)) := " + ('none' if qo is None else 'some [' + ', '.join(f'({q(a)}, {"none" if b == "inner" else "some " + b})' for a, b in qo['QTYPE']) + ']'),
           "def qclassToCode : Option (List (String × Option Nat)) := " + ('none' if qo is None else 'some [' + ', '.join(f'({q(a)}, {"none" if b == "inner" else "some " + b})' for a, b in qo['QCLASS']) + ']'),
